@@ -111,3 +111,48 @@ package isaac
 //@   ensures [local-prev-link] r0 == nil && index > 0 && old(proofs[index-1]) != nil ==> proof.Prove(old(proofs[index-1]).State()) == nil
 //@   ensures [local-next-link] r0 == nil && index + 1 < len(proofs) && old(proofs[index+1]) != nil ==> old(proofs[index+1]).Prove(proof.State()) == nil
 //@   ensures [local-others] forall(k, 0 <= k && k < len(proofs) && k != index ==> proofs[k] == old(proofs[k]))
+
+// ---- C38: one proposal per position (choke point) ------------------------------------
+//
+// pbpfound: outcome of the last ProposalByPoint lookup (1 found, 0 not found, 2 error)
+//@ ghost pbpfound int
+//@ func (ProposalPool).ProposalByPoint
+//@   nobody
+//@   modifies ghost:pbpfound
+//@   ensures r2 == nil ==> pbpfound == ite(r1, 1, 0)
+//@   ensures r2 != nil ==> pbpfound == 2
+//@   ensures r2 == nil && r1 ==> r0 != nil
+
+// building and signing a proposal fact (hashing, signatures): outside the property
+//@ func NewProposalFact
+//@   trusted
+//@   pure
+//@ func NewProposalSignFact
+//@   trusted
+//@   pure
+//@ func (*ProposalSignFact).Sign
+//@   trusted
+//@   modifies *
+
+// Under the maker's lock: a proposal is signed and stored only after the pool
+// was asked for exactly this (point, local proposer, previous block) and had
+// none; otherwise the stored one is returned.
+//@ func (*ProposalMaker).Make
+//@   prop C38
+//@   requires p != nil && p.pool != nil && p.local != nil && p.lastBlockMap != nil && p.getOperations != nil && p.Logging != nil && previousBlock != nil
+//@   fnparam lastBlockMap ensures r2 == nil && r1 ==> r0 != nil
+//@   fnparam lastBlockMap ensures p.Logging != nil && p.pool != nil && p.local != nil && p.getOperations != nil
+//@   fnparam getOperations ensures p.Logging != nil && p.pool != nil && p.local != nil
+//@   callsite ProposalByPoint requires locked(p.l) && a0 == point && a1 == p.local.Address() && a2 == previousBlock
+//@   callsite SetProposal requires locked(p.l) && pbpfound == 0
+//@   ensures r1 == nil ==> r0 != nil
+
+//@ func (*ProposalMaker).PreferEmpty
+//@   prop C38
+//@   requires p != nil && p.pool != nil && p.local != nil && p.lastBlockMap != nil && p.Logging != nil && previousBlock != nil
+//@   fnparam lastBlockMap ensures r2 == nil && r1 ==> r0 != nil
+//@   fnparam lastBlockMap ensures p.Logging != nil && p.pool != nil && p.local != nil && p.getOperations != nil
+//@   fnparam getOperations ensures p.Logging != nil && p.pool != nil && p.local != nil
+//@   callsite ProposalByPoint requires locked(p.l) && a0 == point && a1 == p.local.Address() && a2 == previousBlock
+//@   callsite SetProposal requires locked(p.l) && pbpfound == 0
+//@   ensures r1 == nil ==> r0 != nil
